@@ -4,7 +4,10 @@ loop, the dispatcher goroutine and `Stop` (DESIGN §5.1).  `IOTaskPool` only wra
 
 The model describes the tree **with the repair** of defect #10 (DESIGN §8): the dispatcher
 decrements `concurrent` again when its `fork` fails (step `dUndo`).  `Cfg.leak = true` gives the
-pinned behaviour (no decrement) and is used for the counterexamples only.
+pinned behaviour (no decrement) and is used for the counterexamples only.  It also has the repair of the
+task-pool finding "tasks queued at Stop never run": when the dispatcher's `select` takes `<-chClose` it runs what
+is still in the queue (non-blocking receive loop, steps `dDrain` / `dFinish`) before it returns; `Cfg.nodrain =
+true` gives the behaviour before that repair (counterexample only).
 
 State
 * `conc`     `tp.concurrent`
@@ -13,17 +16,20 @@ State
 * `workers`  goroutines started by `fork`: inside a task / between tasks (about to `select`) /
              took the `default` branch, deferred decrement pending
 * `disp`     the dispatcher goroutine: blocked in `select` / holds a task taken from the queue /
-             its `fork` failed (counter incremented) / runs the task inline / returned
+             its `fork` failed (counter incremented) / runs the task inline / took `<-chClose` and is in its
+             drain loop, between two non-blocking receives / runs a drained task inline / returned
 * `goers`    `Go` calls in flight after a failed `fork`: decrement pending / send pending
 * `stopAdd`, `closed`   `Stop`'s two statements
 * histories: `handed` (tasks passed to `Go`), `done` (tasks that returned or panicked),
-             `dropped` (tasks whose `Go` returned through `<-chClose`), `panics` -/
+             `dropped` (tasks whose `Go` returned through `<-chClose`), `panics`
+* ghosts for the statement about `Stop`: `inflight` (tasks whose `Go` call had not returned when `Stop` closed
+             `chClose`, or was made after that), `late` (tasks a `Go` call put into the queue after the close) -/
 namespace TPool
 
 inductive WPh | running (t : Nat) | idle | exiting
   deriving DecidableEq, Repr
 
-inductive Disp | idle | holding (t : Nat) | failed (t : Nat) | running (t : Nat) | exited
+inductive Disp | idle | holding (t : Nat) | failed (t : Nat) | running (t : Nat) | drain | drunning (t : Nat) | exited
   deriving DecidableEq, Repr
 
 inductive GoPh | failed (t : Nat) | enq (t : Nat)
@@ -33,6 +39,7 @@ structure Cfg where
   maxC : Int            -- tp.maxConcurrent = New's first argument - 1
   cap  : Nat            -- capacity of chQqueue
   leak : Bool := false  -- true: the pinned tree (no decrement after the dispatcher's failed fork)
+  nodrain : Bool := false  -- true: the dispatcher returns on `<-chClose` without draining the queue (before the repair)
 
 structure St where
   conc    : Int := 0
@@ -46,6 +53,8 @@ structure St where
   dropped : List Nat := []
   handed  : List Nat := []
   panics  : Nat := 0
+  inflight : List Nat := []
+  late    : List Nat := []
   deriving DecidableEq, Repr
 
 inductive Act
@@ -58,7 +67,8 @@ inductive Act
   | wRdv (i k : Nat)             -- worker i: its non-blocking receive meets the blocked sender k (unbuffered channel)
   | wExit (i : Nat)              -- worker i: deferred AddInt64(-1)
   | dRecv                        -- dispatcher: `f := <-tp.chQqueue`
-  | dExit                        -- dispatcher: `<-tp.chClose`, return
+  | dExit                        -- dispatcher: `<-tp.chClose` taken: enter the drain loop (before the repair: return)
+  | dDrain                       -- dispatcher, drain loop: `select { case f := <-chQqueue: run it inline; default: return }`
   | dFork                        -- dispatcher: fork(f): AddInt64(+1), comparison, start a worker or not
   | dUndo                        -- dispatcher: AddInt64(-1) after the failed fork (the repair), then run inline
   | dFinish (p : Bool)           -- dispatcher: the inline task returns / panics
@@ -66,11 +76,14 @@ inductive Act
   | stopClose                    -- Stop: close(chClose)
   deriving Repr
 
+def gTask : GoPh → List Nat | .failed t | .enq t => [t]
+
 def step (g : Cfg) (s : St) : Act → Option St
   | .go t =>
     let v := s.conc + 1
     if v < g.maxC then some { s with conc := v, workers := s.workers ++ [.running t], handed := s.handed ++ [t] }
-    else some { s with conc := v, goers := s.goers ++ [.failed t], handed := s.handed ++ [t] }
+    else some { s with conc := v, goers := s.goers ++ [.failed t], handed := s.handed ++ [t],
+                       inflight := if s.closed then s.inflight ++ [t] else s.inflight }
   | .goUndo i =>
     match s.goers[i]? with
     | some (.failed t) => some { s with conc := s.conc - 1, goers := s.goers.set i (.enq t) }
@@ -78,7 +91,8 @@ def step (g : Cfg) (s : St) : Act → Option St
   | .goEnq i =>
     match s.goers[i]? with
     | some (.enq t) =>
-      if s.queue.length < g.cap then some { s with queue := s.queue ++ [t], goers := s.goers.eraseIdx i }
+      if s.queue.length < g.cap then
+        some { s with queue := s.queue ++ [t], goers := s.goers.eraseIdx i, late := if s.closed then s.late ++ [t] else s.late }
       else if g.cap = 0 ∧ s.disp = .idle ∧ s.queue = [] then
         some { s with disp := .holding t, goers := s.goers.eraseIdx i }     -- rendezvous with the dispatcher
       else none
@@ -114,8 +128,13 @@ def step (g : Cfg) (s : St) : Act → Option St
     | _, _ => none
   | .dExit =>
     match s.disp with
-    | .idle => if s.closed then some { s with disp := .exited } else none
+    | .idle => if s.closed then some { s with disp := if g.nodrain then .exited else .drain } else none
     | _ => none
+  | .dDrain =>
+    match s.disp, s.queue with
+    | .drain, t :: q => some { s with disp := .drunning t, queue := q }
+    | .drain, [] => some { s with disp := .exited }
+    | _, _ => none
   | .dFork =>
     match s.disp with
     | .holding t =>
@@ -130,9 +149,11 @@ def step (g : Cfg) (s : St) : Act → Option St
   | .dFinish p =>
     match s.disp with
     | .running t => some { s with disp := .idle, done := s.done ++ [t], panics := if p then s.panics + 1 else s.panics }
+    | .drunning t => some { s with disp := .drain, done := s.done ++ [t], panics := if p then s.panics + 1 else s.panics }
     | _ => none
   | .stopAdd => if s.stopAdd then none else some { s with conc := s.conc + g.maxC, stopAdd := true }
-  | .stopClose => if s.stopAdd && !s.closed then some { s with closed := true } else none
+  | .stopClose =>
+    if s.stopAdd && !s.closed then some { s with closed := true, inflight := s.goers.flatMap gTask } else none
 
 def init : St := {}
 
@@ -144,10 +165,9 @@ def run (g : Cfg) : St → List Act → St
     | none => run g s as
 
 def wTask : WPh → List Nat | .running t => [t] | _ => []
-def dTask : Disp → List Nat | .holding t | .failed t | .running t => [t] | _ => []
-def gTask : GoPh → List Nat | .failed t | .enq t => [t]
+def dTask : Disp → List Nat | .holding t | .failed t | .running t | .drunning t => [t] | _ => []
 
-def dRun : Disp → List Nat | .running t => [t] | _ => []
+def dRun : Disp → List Nat | .running t | .drunning t => [t] | _ => []
 def dPend : Disp → List Nat | .holding t | .failed t => [t] | _ => []
 
 /-- tasks inside `f()` right now -/
